@@ -7,6 +7,7 @@ import Driver.ClaimTrace
 import Driver.BridgeStore
 import Driver.L1InfoStore
 import Driver.Downloader
+import Driver.LastGER
 open Driver Aggkit
 
 def keccakStep (_ : Unit) (ws : List String) : Unit × String :=
@@ -27,5 +28,6 @@ def main (args : List String) : IO UInt32 := do
   | ["bridgestore"] => loop inp Driver.BridgeStore.step (Aggkit.BridgeStore.BP.init Driver.Tree.H Driver.Tree.N); return 0
   | ["l1infostore"] => loop inp Driver.L1InfoStore.step (Aggkit.L1InfoStore.LP.init Driver.Tree.H Driver.Tree.N); return 0
   | ["downloader"] => loop inp Driver.Downloader.step (); return 0
+  | ["gersync"] => loop inp Driver.LastGER.step {}; return 0
   | ["tree"] => loop inp Driver.Tree.step (Aggkit.TM.init Driver.Tree.H Driver.Tree.N); return 0
   | _ => IO.eprintln "usage: aggkit_driver <scenario>"; return 2
